@@ -536,6 +536,74 @@ func generateHard(g *core.Gen) {
 		g.Case("easiest", d > 0, fmt.Sprintf("C09 easiest %s %x %d", paramsLine(p), bits, d))
 	}
 
+	// zero / negative / sub-byte targets through both PoW entry points
+	for i := 0; i < g.N(120, 3000); i++ {
+		h := wire.BlockHeader{Version: 1, Timestamp: time.Unix(1700000000, 0), Nonce: r.U32()}
+		h.Bits = []uint32{0, 0x00800000, 0x01000000, 0x01003456, 0x02000056, 0x03000000, 0x01803456, 0x04800001,
+			0x00123456, 0x01010000, 0x02000100, 0x03000001, 0x1d800000, 0x20800001}[i%14]
+		lim := chaincfg.RegressionNetParams.PowLimit
+		if i%3 == 0 {
+			g.Case("pow-zero-target", true, fmt.Sprintf("C09 pow %s %s", headerHex(&h), lim.Text(16)))
+		} else {
+			g.Case("hsan-zero-target", true, fmt.Sprintf("C09 hsan %s %s %d 0 1700000000", headerHex(&h), lim.Text(16), i%2))
+		}
+	}
+
+	// retarget result exactly at / one below / one above the pow limit (small targets so that one unit
+	// survives the compact encoding), and actual timespans exactly at the clamp edges
+	for i := 0; i < g.N(600, 20000); i++ {
+		p := synthParams(r)
+		p.PoWNoRetargeting = false
+		c := cctx{p}
+		bpr := int(c.BlocksPerRetarget())
+		n := bpr * (1 + r.Intn(3))
+		hs, _ := genHistory(r, p, n)
+		times, bits := parseChain(hs)
+		T := int64(p.TargetTimespan / time.Second)
+		class := "next-clamp-edge"
+		// pin the actual timespan to a clamp edge by moving the first block of the period
+		edge := []int64{c.MinRetargetTimespan(), c.MaxRetargetTimespan(), T}[r.Intn(3)] + r.Pick(-1, 0, 1)
+		times[n-bpr] = times[n-1] - edge
+		if bpr == 1 {
+			edge = 0
+		}
+		if r.Bool() {
+			class = "next-cap-edge"
+			small := uint32(0x03000000) | r.U32()&0x7fffff | 0x010000
+			if r.Bool() {
+				small = uint32(0x02000000) | r.U32()&0x7fff00 | 0x010000
+			}
+			for j := range bits {
+				bits[j] = small
+			}
+			old := blockchain.CompactToBig(small)
+			adj := edge
+			if adj < c.MinRetargetTimespan() {
+				adj = c.MinRetargetTimespan()
+			} else if adj > c.MaxRetargetTimespan() {
+				adj = c.MaxRetargetTimespan()
+			}
+			nt := new(big.Int).Mul(old, big.NewInt(adj))
+			nt.Quo(nt, big.NewInt(T))
+			lim := nt.Add(nt, big.NewInt(r.Pick(-1, 0, 1)))
+			if lim.Sign() <= 0 {
+				lim = big.NewInt(1)
+			}
+			q := *p
+			q.PowLimit = lim
+			q.PowLimitBits = blockchain.BigToCompact(lim)
+			p = &q
+		}
+		for j := range hs {
+			hs[n-1-j] = fmt.Sprintf("%d:%x", times[j], bits[j])
+		}
+		op := "next"
+		if r.Bool() {
+			op = "nextn"
+		}
+		g.Case(class, true, fmt.Sprintf("C09 %s %s %d %s", op, paramsLine(p), times[n-1]+1, strings.Join(hs, " ")))
+	}
+
 	// shared-state run
 	for i := 0; i < g.N(40, 400); i++ {
 		n := 64
